@@ -158,16 +158,20 @@ def printer(file_json, endian):
     return "\n".join(out) + "\n"
 
 
-def walk_locs(node, out, path=""):
+def walk_locs(node, out, path="", parent=None):
+    """collects (path, node) for every node carrying a source range; node["_parent_loc"] is the range of the
+    nearest enclosing node that has one"""
     if isinstance(node, dict):
+        here = parent
         if "loc" in node and isinstance(node["loc"], dict) and "start" in node["loc"]:
-            out.append((path, node))
+            out.append((path, node, parent))
+            here = node["loc"]
         for k, v in node.items():
             if k != "loc":
-                walk_locs(v, out, path + "/" + k)
+                walk_locs(v, out, path + "/" + k, here)
     elif isinstance(node, list):
         for i, v in enumerate(node):
-            walk_locs(v, out, "%s[%d]" % (path, i))
+            walk_locs(v, out, "%s[%d]" % (path, i), parent)
 
 
 def check_locs(run, text, file_json, rep):
@@ -177,9 +181,9 @@ def check_locs(run, text, file_json, rep):
     nodes = []
     walk_locs(file_json["declarations"], nodes)
     walk_locs(file_json["comments"], nodes, "/comments")
-    nodes.append(("/endianness", file_json["endianness"]))
+    nodes.append(("/endianness", file_json["endianness"], None))
     import bisect
-    for path, nd in nodes:
+    for path, nd, ploc in nodes:
         l = nd["loc"]
         s, e = l["start"], l["end"]
         bad = None
@@ -201,6 +205,12 @@ def check_locs(run, text, file_json, rep):
                 first = "/"
             if first is not None and not seg.startswith(first):
                 bad = "range does not start at the node's text: %r (expected to start with %r)" % (seg[:30], first)
+            # a node's text contains the text of its parts: the range of a sub-node (a field's condition, a
+            # declaration's constraints and fields, an enum's tags, a range's nested tags ...) lies inside its parent's
+            if bad is None and ploc is not None and not (ploc["start"]["offset"] <= s["offset"] and e["offset"] <= ploc["end"]["offset"]):
+                bad = "nested range %d..%d is not inside the range %d..%d of the enclosing node (%r)" % (
+                    s["offset"], e["offset"], ploc["start"]["offset"], ploc["end"]["offset"],
+                    data[ploc["start"]["offset"]:ploc["end"]["offset"]].decode(errors="replace")[:40])
         if bad:
             run.violation("impl", "source range of %s: %s" % (path, bad), dict(rep, node=path, loc=l,
                           signature={"class": "loc", "what": bad.split(" ")[0]}))
